@@ -159,3 +159,73 @@ def run(ctx):
                          % (tcty, iv[0] if iv else '?', iv[1] if iv else '?', show(x)[:70]))
     ctx.inst('RF7.narrowing-sites', n_sites)
     ctx.require_min(allp, 'RF7', n_sites, MIN_SITES, 'narrowing conversions of length quantities')
+
+
+# ------------------------------------------------------------------ RF7-sign
+SIGN_PROPS_BY_UNIT = {'co_emcy': ['C15'], 'co_ssdo.c': ['C02', 'C03', 'C04'], 'co_csdo.c': ['C19'], 'co_pdo': ['C12', 'C13', 'C14'],
+                      'co_sync': ['C16'], 'co_dict.c': ['C06'], 'co_obj.c': ['C06'], 'co_integer': ['C06'], 'co_para': ['C17'],
+                      'co_lss.c': ['C18'], 'co_nmt.c': ['C09'], 'co_hb': ['C10', 'C11'], 'co_tmr.c': ['C07', 'C08']}
+ALL_SIGN_PROPS = sorted(set(p for v in SIGN_PROPS_BY_UNIT.values() for p in v))
+
+
+def _sign_extending_casts(m):
+    """(function, cast node, innermost operand): conversions that turn a stored SIGNED value (variable, field, array
+    element) into a WIDER UNSIGNED one - through any chain of implicit promotions"""
+    out = []
+    for f, fn in sorted(m.funcs.items()):
+        seen = set()
+        for x in walk(fn.body):
+            if x.k != 'cast':
+                continue
+            a = int_type(x.cty)
+            s0 = strip(x)
+            b = int_type(s0.cty) if s0 is not None else None
+            if a and b and b[1] and not a[1] and a[0] > b[0] and s0.k in ('mem', 'idx', 'ref') and s0.refk != 'EnumConstantDecl':
+                key = (x.line, show(s0))
+                if key in seen:
+                    continue
+                seen.add(key)
+                out.append((f, x, s0))
+    return out
+
+
+def sign_extension(ctx):
+    """RF7-sign - codes, identifiers, lengths and data words are unsigned quantities.  A value that is STORED in a signed
+    object narrower than the unsigned type it is converted to sign-extends: every value with the top bit set arrives with
+    all higher bits set (an emergency code 8130h is recorded as FFFF8130h).  The library has no such conversion; a field or
+    local whose type is changed to a signed one (in a header, far from the use) creates one at every widening use."""
+    m = ctx.m
+    # positive control: the rule's expected count on the library is zero
+    from rules.rf16_delta import fixture_model
+    fm = fixture_model(ctx)
+    fired = any(f == 'CTL_SignExtend' for (f, x, s0) in _sign_extending_casts(fm))
+    ctx.controls.append({'rule': 'RF7-sign', 'fixture': 'fixtures/controls.c:CTL_SignExtend', 'expected_finding': 'sign-extension', 'fired': fired})
+    if not fired:
+        ctx.broke(ALL_SIGN_PROPS, 'RF7-sign: positive control CTL_SignExtend did not fire')
+    n_casts = sum(1 for fn in m.funcs.values() for x in walk(fn.body) if x.k == 'cast' and int_type(x.cty) is not None)
+    ctx.inst('RF7-sign.integer-casts-scanned', n_casts)
+    hits = _sign_extending_casts(m)
+    for (f, x, s0) in hits:
+        unit = m.funcs[f].unit.split('/')[-1]
+        props = None
+        for k, v in SIGN_PROPS_BY_UNIT.items():
+            if k in unit:
+                props = v
+        props = props or ['C01']
+        site = '%s: %s' % (m.loc(f, x), show(x)[:60])
+        ctx.ob(props, 'RF7-sign', f, site, None)
+        ctx.find(props, 'RF7-sign', f, 'sign-extension:%s' % show(s0)[:40], m.loc(f, x),
+                 '%s converts the signed %s `%s` into the wider unsigned type %s: values with the top bit set sign-extend (8130h '
+                 'becomes FFFF8130h)' % (f, s0.cty, show(s0), x.cty))
+    if not hits:
+        ctx.ob(ALL_SIGN_PROPS, 'RF7-sign', '(library)', 'no stored signed value is widened into an unsigned one (%d integer casts scanned)' % n_casts,
+               'none found; positive control fired', nontrivial=False)
+    ctx.require_min(ALL_SIGN_PROPS, 'RF7-sign', n_casts, 200, 'integer casts scanned')
+
+
+_run_rf7 = run
+
+
+def run(ctx):
+    _run_rf7(ctx)
+    sign_extension(ctx)
